@@ -50,7 +50,7 @@ func genC08Op(t *rapid.T, blocks int) Op {
 	case "setcp":
 		return Op{K: "setcp", On: rapid.Bool().Draw(t, "on")}
 	case "setrebuilding":
-		return Op{K: "setrebuilding", On: true}
+		return Op{K: "setrebuilding", On: rapid.Bool().Draw(t, "rebuilding")}
 	case "setclonestatus":
 		return Op{K: "setclonestatus", Str: rapid.SampledFrom([]string{"inProgress", "completed", "error"}).Draw(t, "cs")}
 	case "setrev":
@@ -69,6 +69,7 @@ type dirState struct {
 	Snaps   map[string][]byte // user snapshots in the chain -> image
 	SnapErr map[string]error
 	MetaErr string
+	Flags   string // rebuilding / clone status / checkpoint as persisted in volume.meta
 }
 
 // inspectDir reopens a (copy of a) replica directory the way a restarted
@@ -117,8 +118,10 @@ func inspectDir(dir string, preload bool, fast bool) dirState {
 			st.MetaErr = fmt.Sprintf("%s.meta: %v", d, err)
 		}
 	}
-	if _, err := readVolMeta(dir); err != nil {
+	if vm, err := readVolMeta(dir); err != nil {
 		st.MetaErr = "volume.meta: " + err.Error()
+	} else {
+		st.Flags = fmt.Sprintf("rebuilding=%v", vm.Rebuilding)
 	}
 	return st
 }
@@ -313,7 +316,8 @@ func runC08Case(cc C08Case) (*Fail, c08Stats, error) {
 			vop.Name = preM.Latest()
 		}
 	case "setrebuilding":
-		vop.On = true
+		vop.On = cc.Op.On
+		vop.PreRebuilding = !cc.Op.On // ending a rebuild: the flag is set first
 	case "setclonestatus":
 		vop.Name = cc.Op.Str
 	case "setrev":
@@ -344,6 +348,39 @@ func runC08Case(cc C08Case) (*Fail, c08Stats, error) {
 		}
 	}
 	sig0 := "C08|" + cc.Op.K
+	// the flags volume.meta persists (they gate the replica's REST actions after a restart)
+	preFlags, postFlags := "", ""
+	if vm, err := readVolMeta(preDir); err == nil {
+		// Only the rebuilding flag is compared: it decides the replica's state after a
+		// restart and whether a half-built copy may serve (C07, C17), and SetRebuilding
+		// changes it in memory only after the write succeeded. SetCloneStatus and
+		// SetCheckpoint update their in-memory value first; when their write fails the
+		// directory is intact at that moment, but a later close persists the value of
+		// the request that reported failure (DESIGN 7.3) - no listed statement forbids that.
+		fl := func(rb bool, cs, cp string) string {
+			return fmt.Sprintf("rebuilding=%v", rb)
+		}
+		rb := vm.Rebuilding || vop.PreRebuilding
+		preFlags = fl(rb, vm.CloneStatus, vm.Checkpoint)
+		postFlags = preFlags
+		switch cc.Op.K {
+		case "setrebuilding":
+			postFlags = fl(vop.On, vm.CloneStatus, vm.Checkpoint)
+		case "setclonestatus":
+			postFlags = fl(rb, vop.Name, vm.Checkpoint)
+		case "setcp":
+			postFlags = fl(rb, vm.CloneStatus, postM.Checkpoint)
+		case "remove", "markrm", "revert", "snap":
+			postFlags = fl(rb, vm.CloneStatus, postM.Checkpoint)
+		}
+	}
+	cmpState := func(ds dirState, m *Model, lo, hi int64, flags string) string {
+		d := ds.matches(m, lo, hi)
+		if d == "" && flags != "" && ds.Flags != "" && ds.Flags != flags {
+			d = fmt.Sprintf("volume.meta persists %s, expected %s", ds.Flags, flags)
+		}
+		return d
+	}
 	cLo, cHi := preM.Counter, postM.Counter
 	if cLo > cHi {
 		cLo, cHi = cHi, cLo // an explicit SetRevisionCounter may lower the counter
@@ -457,6 +494,9 @@ func runC08Case(cc C08Case) (*Fail, c08Stats, error) {
 			fvop := vop
 			if cc.Op.K != "close" && cc.Op.K != "open" {
 				fvop.Then = cc.Then
+				if cc.Op.K == "setrebuilding" && fvop.Then != "" {
+					fvop.Then = "close" // the other follow-ups set the flag themselves
+				}
 			}
 			vr, err := runVictim(work, fvop, pre.MaxChain, inj)
 			if err != nil {
@@ -477,7 +517,11 @@ func runC08Case(cc C08Case) (*Fail, c08Stats, error) {
 				if expectRefused {
 					w = preM
 				}
-				if d := ds.matches(w, w.Counter, w.Counter); d != "" {
+				wf := postFlags
+				if expectRefused {
+					wf = preFlags
+				}
+				if d := cmpState(ds, w, w.Counter, w.Counter, wf); d != "" {
 					return fail(sig0+"|"+c.Role+"|"+en+"|success-over-damaged-state", fmt.Sprintf("%s on call %d/%d %s(%s) of %+v: the operation reported success but the directory: %s", en, i+1, len(calls), c.Name, tailStr(c.Args, 120), fvop, d), "C08"), stt, nil
 				}
 			} else {
@@ -485,22 +529,25 @@ func runC08Case(cc C08Case) (*Fail, c08Stats, error) {
 				if cc.Op.K == "write" {
 					d = ds.matchesWrite(preM, postM, vop.Off, vop.Len)
 				} else {
-					d = ds.matches(preM, preM.Counter, preM.Counter)
+					d = cmpState(ds, preM, preM.Counter, preM.Counter, preFlags)
 				}
 				if d != "" {
 					kind := "reports-failure-state-damaged"
-					if cc.Op.K != "write" && ds.matches(postM, cLo, cHi) == "" {
+					if cc.Op.K != "write" && cmpState(ds, postM, cLo, cHi, postFlags) == "" {
 						kind = "reports-failure-new-state-in-place"
 					}
 					sg := sig0 + "|" + c.Role + "|" + en + "|" + kind
-					if fvop.Then != "" && kind == "reports-failure-state-damaged" {
-						// distinguish damage done by the follow-up from damage done by the failed operation itself
+					if fvop.Then != "" {
+						// distinguish what the follow-up persisted from what the failed operation itself did:
+						// when the operation alone leaves the old state intact, the new state reached the
+						// disk through what it left in memory
 						if err := fresh(); err != nil {
 							return nil, stt, err
 						}
 						if vr2, err := runVictim(work, vop, pre.MaxChain, inj); err == nil && !vr2.Died && vr2.Result != "ok" &&
-							inspectDir(work, true, true).matches(preM, preM.Counter, preM.Counter) == "" {
-							sg = sig0 + "|" + c.Role + "|" + en + "|failed-operation-then-" + fvop.Then + "|state-damaged"
+							cmpState(inspectDir(work, true, true), preM, preM.Counter, preM.Counter, preFlags) == "" {
+							kind = "failed-operation-then-" + fvop.Then + "|state-damaged"
+							sg = sig0 + "|" + c.Role + "|" + en + "|" + kind
 							d = fmt.Sprintf("the failed operation alone leaves the old state intact, but after the follow-up %q (result %q) on the same replica: %s", fvop.Then, vr.Then, d)
 						}
 					}
@@ -617,6 +664,10 @@ func c08Run(t *testing.T, prop, test string, all bool, gen func(*rapid.T) C08Cas
 			if strings.Contains(f.Detail, "revision counter") && !f.Has("C10") {
 				f.Props = append(f.Props, "C10")
 			}
+			// the persisted flags decide which actions the replica accepts after a restart
+			if strings.Contains(f.Detail, "volume.meta persists") && !f.Has("C17") {
+				f.Props = append(f.Props, "C17")
+			}
 			if !f.Has(prop) {
 				rec.Cross(f.String(), cc)
 				return
@@ -688,6 +739,19 @@ func genC08Case(t *rapid.T, all bool) C08Case {
 // TestC08 — the replica directory is crash-consistent at every instant.
 func TestC08(t *testing.T) {
 	c08Run(t, "C08", "TestC08", tier() == "thorough", func(rt *rapid.T) C08Case { return genC08Case(rt, tier() == "thorough") })
+}
+
+// TestC17Faults — a state-changing request that fails (one file-system call of
+// it fails) leaves the replica's persisted state flags as they were, also after
+// the replica is closed normally afterwards.
+func TestC17Faults(t *testing.T) {
+	c08Run(t, "C17", "TestC17Faults", false, func(rt *rapid.T) C08Case {
+		cc := genC08Case(rt, false)
+		cc.Op = Op{K: "setrebuilding", On: rapid.Bool().Draw(rt, "c17on")}
+		cc.Then = "close"
+		cc.Sample = rapid.SliceOfN(rapid.IntRange(0, 200), 5, 8).Draw(rt, "c17sample")
+		return cc
+	})
 }
 
 // TestC10Crash — the revision counter never goes back across a process death or
